@@ -163,10 +163,10 @@ pub fn loop_scope(rep: &mut Report, rng: &mut Rng, focus: &str, thorough: bool) 
                 _ => {
                     let pk = run_exec(&opt, Exec::Pk, h, 0, 64);
                     let btn = run_exec(&noopt, Exec::Bt, h, 0, 64);
-                    if bt.text != pk.text {
+                    if crate::ops_engine::differ(&bt.text, &pk.text) {
                         rep.violation("impl-vs-impl:C02", format!("backtracking [{}] vs PikeVM [{}]", bt.text, pk.text), label.clone());
                     }
-                    if bt.text != btn.text {
+                    if crate::ops_engine::differ(&bt.text, &btn.text) {
                         rep.violation("impl-vs-impl:C03", format!("optimized [{}] vs no_opt [{}]", bt.text, btn.text), label.clone());
                     }
                 }
@@ -216,10 +216,10 @@ pub fn prefix_scope(rep: &mut Report, rng: &mut Rng, thorough: bool) {
                         let a = run_exec(&arb, Exec::Bt, h, start, 64);
                         let pk = run_exec(&re, Exec::Pk, h, start, 64);
                         rep.case(&label, !bt.text.is_empty());
-                        if bt.text != a.text {
+                        if crate::ops_engine::differ(&bt.text, &a.text) {
                             rep.violation("impl-vs-impl:C04", format!("with prefilter ({}) [{}] vs Arbitrary [{}]", pred, bt.text, a.text), label.clone());
                         }
-                        if bt.text != pk.text {
+                        if crate::ops_engine::differ(&bt.text, &pk.text) {
                             rep.violation("impl-vs-impl:C04", format!("backtracking with prefilter ({}) [{}] vs PikeVM [{}]", pred, bt.text, pk.text), label.clone());
                         }
                     }
@@ -242,6 +242,26 @@ pub fn spec_probes() -> Vec<(&'static str, &'static str, Node, Vec<&'static str>
         ("", "^[\\uD83D\\u0041]$", anch(Node::Class(false, vec![ClassItem::C(0xD83D), ClassItem::C(0x41)])), vec!["A", "0", "4", "1", "u"]),
         // F26: a single & can start a range
         ("v", "^[A&-Z]$", anch(Node::VClass(false, VExpr::Union(vec![ClassItem::C('A' as u32), ClassItem::R('&' as u32, 'Z' as u32)]))), vec!["&", "-", "Z", "A", "a", "0"]),
+        // F31: under v+i strings are compared up to case in && and --
+        (
+            "iv",
+            "^[\\q{ab}&&\\q{AB}]$",
+            anch(Node::VClass(false, VExpr::Inter(vec![ClassItem::Q(vec![vec![0x61, 0x62]]), ClassItem::Q(vec![vec![0x41, 0x42]])]))),
+            vec!["ab", "AB", "aB", "a"],
+        ),
+        (
+            "iv",
+            "^[\\q{ab|cd}--\\q{AB}]$",
+            anch(Node::VClass(false, VExpr::Sub(vec![ClassItem::Q(vec![vec![0x61, 0x62], vec![0x63, 0x64]]), ClassItem::Q(vec![vec![0x41, 0x42]])]))),
+            vec!["ab", "AB", "cd", "CD"],
+        ),
+        // F32: a negated class may subtract strings
+        (
+            "v",
+            "^[^a--\\q{bc}]$",
+            anch(Node::VClass(true, VExpr::Sub(vec![ClassItem::C(0x61), ClassItem::Q(vec![vec![0x62, 0x63]])]))),
+            vec!["a", "b", "bc"],
+        ),
         // F20: two different reserved punctuators
         ("v", "^[!#]$", anch(Node::VClass(false, VExpr::Union(vec![ClassItem::C('!' as u32), ClassItem::C('#' as u32)]))), vec!["!", "#", "a"]),
     ]
